@@ -1800,6 +1800,20 @@ package rtcp
 //@   ensures nonempty: err == nil ==> len(ps) >= 1
 //@   ensures local: err == nil && specListScope(ps) ==> specFramesDecodeAlone(raw, ps)
 
+//@ func lemmaPure(p Packet) (unchanged bool, repeatable bool)
+//@   lemma
+//@   trusted
+//@   bounded[C18] genStringifyArg
+//@   ensures unchanged: unchanged
+//@   ensures repeatable: repeatable
+
+//@ func lemmaDecodePure(raw []byte) (inputUnchanged bool, repeatable bool)
+//@   lemma
+//@   trusted
+//@   bounded[C18] genDatagram
+//@   ensures input: inputUnchanged
+//@   ensures repeatable: repeatable
+
 //@ func lemmaReencodeSR(raw []byte) (p SenderReport, q SenderReport, err error, err2 error, err3 error)
 //@   lemma
 //@   requires frame: len(raw) <= 4*65536
